@@ -8,7 +8,7 @@ destinations, one plain and one with --use-cache / --checksum-db / --resume and 
 (optionally damaged: truncated, garbage, other version); each run is also compared with Engine.run; (3) every cache
 file a run leaves is inspected for the invariant the theorem uses (no "." entry).
 Oracle: after every step the two destinations are equal minus sy's own metadata files."""
-import json, os, datetime, shutil
+import json, os, datetime, shutil, subprocess
 import vlib, world, engine_world as ew
 from common import proof_phase, TRUSTED_COMMON
 
@@ -27,8 +27,9 @@ def api_cases(r, n):
     for _ in range(n):
         ops = []
         base = r.randrange(5, 9) * 10**9 if r.random() < 0.75 else -r.randrange(5, 9) * 10**9     # a quarter of the cases: time stamps before 1970
+        odd_names = r.random() < 0.3      # (O5 of seed C18-4's notes) names that are not valid UTF-8, equal in their lossy form
         for _ in range(r.randrange(2, 12)):
-            p = r.randrange(1, 4)
+            p = r.randrange(1, 4) + (99 if odd_names else 0)
             mt = base + r.choice([0, 0, 1, -1, 10**9, -10**9, 5 * 10**8, 2 * 10**9])
             sz = r.choice([5, 5, 6, 0])
             if r.random() < 0.45:
@@ -227,6 +228,82 @@ def filter_line(line, ids, metas):
     return " ".join("%s=%s" % (k, kv[k]) for k in ("refused", "exit", "nerr", "evs", "dst"))
 
 
+def resume_kind_change_worlds(sc, stats):
+    """(2e37b75) a source entry that used to be a symbolic link and is a directory / a regular file now, with a state file that lists it as
+    completed: resume must not take the link the earlier run left in the destination for the completed entry (the directory's
+    entries were written through it).  Twins: --resume=false vs --resume=true over the same trees."""
+    viol = []
+    for wi, kind in enumerate(["dir", "file", "dir-delete"]):
+        base = os.path.join(sc.dir, "rk%d" % wi)
+        src = base + "/src"
+        os.makedirs(src + "/real")
+        with open(src + "/real/r", "wb") as f:
+            f.write(b"referent\n")
+        os.utime(src + "/real/r", ns=(ew.T0NS + 50 * NS,) * 2)
+        os.symlink("real" if kind.startswith("dir") else "real/r", src + "/d")
+        twins = {"plain": (base + "/dst_plain", ["--resume=false"]), "aux": (base + "/dst_aux", ["--resume=true"])}
+        extra = ["--delete", "--force-delete"] if kind == "dir-delete" else []
+        for _n, (dst, _fl) in twins.items():
+            os.makedirs(dst)
+            world.run_sy([src, dst, "--resume=false", "-q"], sc)
+        os.remove(src + "/d")
+        if kind.startswith("dir"):
+            os.makedirs(src + "/d")
+            with open(src + "/d/x", "wb") as f:
+                f.write(b"new entry of the directory\n")
+        else:
+            subprocess.run(["cp", "-p", src + "/real/r", src + "/d"], check=True)
+        world.sync_fs()
+        vlib.run_sharded([os.path.join(vlib.BIN, "h_cache")], ["RS %s %d %s %s" % (twins["aux"][0].encode().hex(), 1 if extra else 0, "d".encode().hex(),
+                                                                      datetime.datetime.now(datetime.timezone.utc).isoformat())], shards=1)
+        snaps = {}
+        for n, (dst, fl) in twins.items():
+            rr = world.run_sy([src, dst, "-q"] + fl + extra, sc)
+            snaps[n] = (rr["rc"], {k: (v["kind"], v.get("sha"), v.get("target")) for k, v in world.snapshot(dst).items() if not is_meta(k)})
+        stats["resume_kind_change_worlds"] = stats.get("resume_kind_change_worlds", 0) + 1
+        if snaps["plain"] != snaps["aux"]:
+            d = sorted(k for k in set(snaps["plain"][1]) | set(snaps["aux"][1]) if snaps["plain"][1].get(k) != snaps["aux"][1].get(k))
+            viol.append({"history": "resume-kind-change-%s" % kind, "step": 2, "aux": "state", "why": "a source entry turned from a symbolic link into a %s and the state file lists it as completed: the destination with --resume differs from the one without at %r (exit %s vs %s)"
+                         % (kind, d[:5], snaps["aux"][0], snaps["plain"][0]), "plain": snaps["plain"][1].get(d[0]) if d else None, "with_resume": snaps["aux"][1].get(d[0]) if d else None})
+        shutil.rmtree(base, ignore_errors=True)
+    return viol
+
+
+def lossy_names_world(sc, stats):
+    """(6a0ee41) two names that are not valid UTF-8 and differ only in the invalid byte; both files are edited (same size) and each gets the
+    time stamp the OTHER had when the database rows were written: with lossy keys one of them found the other's row and was skipped"""
+    viol = []
+    base = os.path.join(sc.dir, "lossy").encode()
+    src = base + b"/src"
+    os.makedirs(src)
+    names = [b"n\xfe.bin", b"n\xff.bin"]
+    stamps = [ew.T0NS + 1 * NS, ew.T0NS + 5 * NS]
+    for nm, st in zip(names, stamps):
+        with open(os.path.join(src, nm), "wb") as f:
+            f.write(b"SAME")
+        os.utime(os.path.join(src, nm), ns=(st, st))
+    twins = {"plain": (base + b"/dst_plain", [b"--checksum"]), "aux": (base + b"/dst_aux", [b"--checksum", b"--checksum-db=true"])}
+    env = dict(os.environ); env.update(sc.env)
+    for _n, (dst, fl) in twins.items():
+        os.makedirs(dst)
+        subprocess.run([world.SY.encode(), src, dst, b"-q"] + fl, env=env, stdout=subprocess.PIPE, stderr=subprocess.PIPE, timeout=60)
+    for nm, st in zip(names, reversed(stamps)):
+        with open(os.path.join(src, nm), "wb") as f:
+            f.write(b"EDIT")
+        os.utime(os.path.join(src, nm), ns=(st, st))
+    world.sync_fs()
+    out = {}
+    for n, (dst, fl) in twins.items():
+        p = subprocess.run([world.SY.encode(), src, dst, b"-q"] + fl, env=env, stdout=subprocess.PIPE, stderr=subprocess.PIPE, timeout=60)
+        out[n] = (p.returncode, {nm: open(os.path.join(dst, nm), "rb").read() if os.path.isfile(os.path.join(dst, nm)) else None for nm in names})
+    stats["lossy_name_worlds"] = stats.get("lossy_name_worlds", 0) + 1
+    if out["plain"] != out["aux"]:
+        viol.append({"history": "lossy-names", "step": 2, "aux": "db", "why": "two names that differ only in a byte that is not valid UTF-8, both edited (same size, time stamps exchanged): with the checksum database the destination ends as %r (exit %s), without as %r (exit %s)"
+                     % ({k.decode("latin1"): v for k, v in out["aux"][1].items()}, out["aux"][0], {k.decode("latin1"): v for k, v in out["plain"][1].items()}, out["plain"][0])})
+    shutil.rmtree(base, ignore_errors=True)
+    return viol
+
+
 def run_history(sc, seed, i, known, stats):
     r = vlib.rng_for(seed, "C18-h%d" % i)
     name, aux, plain = AUX_SETS[i % len(AUX_SETS)]
@@ -393,6 +470,8 @@ def run(tier, seed):
             viol += v; diffs += d; cases += cs; obs += ob
             for k, x in h.items():
                 hits.setdefault(k, []).extend(x)
+        viol += resume_kind_change_worlds(sc, stats)
+        viol += lossy_names_world(sc, stats)
     model = vlib.run_model(cases)
     for case, (o, ids, metas, tag), m in zip(cases, obs, model):
         mm = filter_line(ew.model_obs(m), ids, metas)
